@@ -3,7 +3,7 @@
 //
 // ops:
 //   solve <PolyOCP data> Ulb Uub u0 y mu  crit tol max_iter gn_interval gn_sticky reset_lbfgs chol disable_acc always L0
-//         max_no_progress lbfgs_mem stop_at termonly
+//         max_no_progress lbfgs_mem stop_at termonly max_time_ns
 //     crit = integer value of PANOCStopCrit; stop_at = progress record index at which solver.stop() is called (-1: never);
 //     termonly = 1: wrap the problem so that only the *_N constraint functions exist (requires nc = 0); 2: the same plus get_D
 //
@@ -79,6 +79,9 @@ int main() {
                 params.lbfgs_params.memory    = vio::ri();
                 long stop_at                  = vio::ri();
                 long termonly                 = vio::ri();
+                long max_time_ns              = vio::ri(); // < 0: keep the default (5 min)
+                if (max_time_ns >= 0)
+                    opts.max_time = std::chrono::nanoseconds(max_time_ns);
                 opts.check                    = true;
                 j.d("qub_tol", params.quadratic_upperbound_tolerance_factor).d("ls_tol", params.linesearch_tolerance_factor);
                 j.d("beta", params.linesearch_strictness_factor).d("L_max", params.L_max).d("Lgamma", params.Lipschitz.Lγ_factor);
